@@ -761,18 +761,7 @@ theorem residue_bound (cfg : Cfg ℂ) {m : ℕ} (U : Matrix (Fin m) (Fin m) ℂ)
   refine ⟨hQ, by rw [e]; exact hle, ?_⟩
   intro ε hε0 hε
   rw [e]
-  refine le_trans hle ?_
-  have h1 : ((trace cfg (initSt U sols) (cells m)).map fun r => ‖r.z‖).sum ≤
-      ((trace cfg (initSt U sols) (cells m)).map fun r => ‖r.z‖).length • ε := by
-    apply List.sum_le_card_nsmul
-    intro x hx
-    simp only [List.mem_map] at hx
-    obtain ⟨r, hr, rfl⟩ := hx
-    exact hε r hr
-  refine le_trans h1 ?_
-  rw [List.length_map, nsmul_eq_mul]
-  apply mul_le_mul_of_nonneg_right _ hε0
-  exact_mod_cast trace_length_le cfg (cells m) (initSt U sols)
+  exact le_trans hle (trace_sum_le cfg (cells m) (initSt U sols) ε hε0 hε)
 
 /-- `decomposition_error_bound`.  The perturbation theorem that replaces the measured tolerance: `U` unitary, every
 block the solver produced unitary, `δ` a bound on the sum of the moduli of the overwritten entries (`δ = (#cells)·ε`
@@ -822,6 +811,54 @@ theorem decomposition_error_bound (cfg : Cfg ℂ) {m : ℕ} (U : Matrix (Fin m) 
   rw [frob_unitary_mul _ hQ.2]
   have : frob (u - Matrix.diagonal P) ≤ (Real.sqrt ((m : ℝ) - 1) + 1) * δ + (m : ℝ) * δ ^ 2 := hdiag
   linarith
+
+/-- `decomposition_error_bound` in terms of the precision: every overwritten entry of modulus at most `ε`
+(`overwritten_values`: the threshold test for the skipped / permuted cells, the acceptance test of `solve` for the
+solved ones) gives `‖U − circuit‖_F ≤ (√(m−1) + 2)·N·ε + m·(N·ε)²` with `N = m(m−1)/2` cells. -/
+theorem decomposition_error_bound_precision (cfg : Cfg ℂ) {m : ℕ} (U : Matrix (Fin m) (Fin m) ℂ) (hU : IsUnitary U)
+    (sols : List (Sol ℂ)) (hgood : ∀ s ∈ sols, s.1 * s.2 = 1) (hunit : ∀ s ∈ sols, IsUnitary s.1)
+    (st : St ℂ m) (h : decomposeTriangle cfg U sols = some st)
+    (ε : ℝ) (hε0 : 0 ≤ ε) (hε : ∀ r ∈ trace cfg (initSt U sols) (cells m), ‖r.z‖ ≤ ε)
+    (keep : ℂ → Bool) (hkeep : ∀ z, keep z = false → z = 1) :
+    frob (U - circMat m (addPhases keep (fun i => phase (st.u.toMatrix i i)) ++ st.comps)) ≤
+      (Real.sqrt ((m : ℝ) - 1) + 2) * (((cells m).length : ℝ) * ε) + (m : ℝ) * (((cells m).length : ℝ) * ε) ^ 2 :=
+  decomposition_error_bound cfg U hU sols hgood hunit st h _
+    (trace_sum_le cfg (cells m) (initSt U sols) ε hε0 hε) keep hkeep
+
+/-- without the phase layer: the circuit `comps` alone has the matrix of `U` times the diagonal of the conjugate
+phases, within the same bound ("equals it up to a diagonal phase matrix") -/
+theorem decomposition_error_bound_no_phase_layer (cfg : Cfg ℂ) {m : ℕ} (U : Matrix (Fin m) (Fin m) ℂ)
+    (hU : IsUnitary U) (sols : List (Sol ℂ)) (hgood : ∀ s ∈ sols, s.1 * s.2 = 1)
+    (hunit : ∀ s ∈ sols, IsUnitary s.1) (st : St ℂ m) (h : decomposeTriangle cfg U sols = some st)
+    (δ : ℝ) (hδ : ((trace cfg (initSt U sols) (cells m)).map fun r => ‖r.z‖).sum ≤ δ) :
+    frob (U * Matrix.diagonal (fun i => star (phase (st.u.toMatrix i i))) - circMat m st.comps) ≤
+      (Real.sqrt ((m : ℝ) - 1) + 2) * δ + (m : ℝ) * δ ^ 2 := by
+  classical
+  have hb := decomposition_error_bound cfg U hU sols hgood hunit st h δ hδ (fun z => decide (z ≠ 1))
+    (by intro z hz; simpa using hz)
+  rw [circMat_append, phases_realise_diag] at hb
+  have hP : (fun i => if (fun z : ℂ => decide (z ≠ 1)) (phase (st.u.toMatrix i i)) = true
+      then phase (st.u.toMatrix i i) else 1) = fun i => phase (st.u.toMatrix i i) := by
+    funext i
+    by_cases hk : phase (st.u.toMatrix i i) = 1
+    · simp [hk]
+    · simp [hk]
+  rw [hP] at hb
+  have hunitP : ∀ i, ‖star (phase (st.u.toMatrix i i))‖ = 1 := fun i => by rw [norm_star, norm_phase]
+  have hPP : Matrix.diagonal (fun i => phase (st.u.toMatrix i i)) *
+      Matrix.diagonal (fun i => star (phase (st.u.toMatrix i i))) = 1 := by
+    rw [Matrix.diagonal_mul_diagonal, ← Matrix.diagonal_one]
+    congr 1
+    funext i
+    have := norm_phase (st.u.toMatrix i i)
+    rw [Complex.star_def, Complex.mul_conj, Complex.normSq_eq_norm_sq, this]
+    simp
+  have e : U * Matrix.diagonal (fun i => star (phase (st.u.toMatrix i i))) - circMat m st.comps =
+      (U - circMat m st.comps * Matrix.diagonal (fun i => phase (st.u.toMatrix i i))) *
+        Matrix.diagonal (fun i => star (phase (st.u.toMatrix i i))) := by
+    rw [Matrix.sub_mul, Matrix.mul_assoc, hPP, Matrix.mul_one]
+  rw [e, frob_mul_unit_diagonal _ _ hunitP]
+  exact hb
 
 /-- the hypotheses of `residue_bound` / `decomposition_error_bound` are satisfiable (the identity, no cell solved) -/
 example : IsUnitary (1 : Matrix (Fin 2) (Fin 2) ℂ) := isUnitary_one
